@@ -1001,7 +1001,11 @@ class Script(revision.Revision):
                     # add all files from __pycache__ whose filename is not
                     # already in the names we got from the version directory.
                     # add as relative paths including __pycache__ token
-                    names = {filename.split(".")[0] for filename in files}
+                    names = {
+                        filename.split(".")[0]
+                        for filename in files
+                        if filename.endswith((".py", ".pyc", ".pyo"))
+                    }
                     paths.extend(
                         os.path.join(py_cache_path, pyc)
                         for pyc in os.listdir(py_cache_path)
